@@ -6,6 +6,11 @@
 // real interpreter is driven through vm.NewEVM(...).Call with a vm.Tracer and
 // its full step trace, result, return data, leftover gas and halt class are
 // compared with the reference's.
+//
+// Call trees (calltree_test.go): a transaction that starts nested frames is
+// run once under a recording tracer and EVERY frame is judged on its own by
+// the same one-frame reference, the instructions outside the subset being
+// resolved from what was observed right after them.
 package c08
 
 import (
@@ -55,7 +60,14 @@ func TestMain(m *testing.M) {
 		"epoch:frontier/G=10", "epoch:homestead/G=10", "epoch:homestead/G=50", "epoch:byzantium-ops+shifts/G=50",
 		"epoch:byzantium-ops+shifts/G=10", "epoch:byzantium-ops/G=50", "fork-boundary:at", "fork-boundary:before",
 		"leg:lattice", "leg:random-operands", "leg:programs", "leg:single-byte", "leg:crafted", "leg:env",
-		"program:mutated", "program:loop", "program:straight-line", "program:branching")
+		"program:mutated", "program:loop", "program:straight-line", "program:branching",
+		// call trees: every frame of a transaction judged on its own
+		"leg:call-trees", "leg:create-pairs",
+		"tree:frame:create", "tree:frame:call", "tree:frame:callcode", "tree:frame:delegatecall", "tree:frame:staticcall", "tree:depth>=3",
+		"tree:nested-jump-taken", "tree:nested-bad-jump", "tree:nested-jump-into-pushdata", "tree:nested-return", "tree:nested-exceptional-halt",
+		"tree:resumed-after-external", "tree:jump-after-nested-frame", "tree:returndata-after-nested-frame",
+		"tree:jump-after-other-code-jumped", "tree:jump-in-later-init-code", "tree:jump-in-later-init-code/maps-differ",
+		"generated-tree:frames>=5", "generated-tree:jump-after-other-code-jumped", "generated-tree:jump-in-later-init-code", "generated-tree:jump-in-later-init-code/maps-differ")
 	ev.MustHit(must...)
 	ev.Main(m, ev.Config{
 		Property: "C08",
@@ -64,14 +76,19 @@ func TestMain(m *testing.M) {
 			"legs: (1) lattice, enumerated: every modelled opcode with 1-3 operands x every tuple over an 18-point boundary lattice x 7 epochs (quick: 3-operand instructions on a 9-point sub-lattice in 5 of them) (plus a second pass with pre-filled memory for memory instructions, all EXP exponent byte lengths 0..32, DUP/SWAP 1..16, the environment lattice); " +
 			"(2) random operands: rapid-drawn 256-bit operands (uniform, lattice +-delta, powers of two +-1, byte lengths) with drawn environment, epoch and gas (ample / exactly enough / one less / fraction); " +
 			"(3) programs: rapid-generated stack-aware programs (<= 200 fragments: pushes, operations with fresh operands, raw opcodes, forward jumps, bounded loops, jumps to bad targets and into PUSH data, RETURN/REVERT/STOP/INVALID, 15% byte-mutated or truncated); " +
-			"(4) single-byte: all 256 one-byte programs, bare and behind 17 pushes, at every epoch and at heights h-1,h,h+1 of every fork of every shipped config; (5) crafted corner programs and the saved corpus. " +
-			"non-trivial: tuple legs = the instruction under test was executed (not out-of-gas before it); programs = at least one taken jump or a memory expansion; single-byte = always. " +
-			"distinct = hash of (leg, epoch, code, input, gas, environment words)",
+			"(4) single-byte: all 256 one-byte programs, bare and behind 17 pushes, at every epoch and at heights h-1,h,h+1 of every fork of every shipped config; (5) crafted corner programs and the saved corpus; " +
+			"(6) call trees: one transaction whose top program (8-36 fragments of leg 3, quick) also starts nested frames - CREATE of generated init codes (<= 14 fragments, more control flow: forward jumps to real JUMPDESTs, loops, jumps to far/bad targets and into PUSH data holding 0x5b, final RETURN/REVERT; brought into memory by CODECOPY from the program's tail or by PUSH32/MSTORE; reused init codes; init codes that CREATE and CALL themselves, four levels of generated code), CALL / CALLCODE / DELEGATECALL / STATICCALL to up to 3 pre-deployed generated contracts, to the executing account, to what was just created, to precompiles and to missing accounts, state access and LOGs in between, RETURNDATASIZE/RETURNDATACOPY after them; 30M gas or exactly enough / one less / a fraction. " +
+			"The real interpreter runs the tree once under a recording tracer; EVERY frame it executed (code, input, gas, address, caller, value as received) is evaluated alone by the one-frame reference and compared step by step (pc, op, gas, cost, the 17 topmost stack items and the depth, memory), the instructions outside the subset being resolved from the observed state right after them (gas, pushed word, memory; return data from the reference's verdict on the child), so a frame is judged before and after its nested frames by a machine that knows nothing about the other frames of the tree; " +
+			"(7) create pairs, enumerated: every ordered pair of 62 corner programs (jumps into PUSH data of every width, to the JUMPDEST behind it, past the end, to 2^63 / 2^64+x, a jump field, a loop, RETURN with data, RETURNDATASIZE / RETURNDATACOPY as the first instruction) as (init code, init code) of one factory and as (called contract, init code) of one transaction. " +
+			"non-trivial: tuple legs = the instruction under test was executed (not out-of-gas before it); programs = at least one taken jump or a memory expansion; single-byte = always; call trees = a nested frame took a jump; create pairs = always. " +
+			"distinct = hash of (leg, epoch, code, input, gas, environment words, pool accounts)",
 		Assumptions: []string{
 			"refevm is a correct transcription of the Yellow Paper / EIP-7/140/145/160/211/214 for the computational subset (checked by its own vector tests)",
 			"gas per frame <= 2^32 in all cases: the specification has no memory limit, the implementation refuses memory above 0xffffffffe0 bytes, which costs more gas than any generated case has",
 			"when several exceptional-halting conditions hold at once the specification gives none precedence: the real halt class must be a member of the reference's set",
-			"instructions outside the computational subset (state access, logs, calls, create, selfdestruct) are only judged for validity and stack arity; a program reaching one is compared up to that instruction",
+			"instructions outside the computational subset (state access, logs, calls, create, selfdestruct) are only judged for validity and stack arity: legs 1-5 compare a program reaching one up to that instruction; legs 6-7 also take their observed effect on the frame (gas left, pushed word, memory) as given and go on, and take what a nested frame received (code, input, gas, address, caller, value) as given - whether CREATE/CALL pass the right things is C07's subject",
+			"legs 6-7: a nested frame's returned data and leftover gas are not observable through the tracer, so they are judged through the caller only (the return data buffer read by RETURNDATASIZE/RETURNDATACOPY must equal what the reference says the child returned); when the child is not judged to its end, or no child ran (precompile, empty account), the caller is compared up to its next RETURNDATASIZE/RETURNDATACOPY",
+			"legs 6-7 keep and compare the 17 topmost stack items and the stack depth per step (no instruction reaches deeper, so a wrong deeper word is seen when it comes within reach); a tree of more than 20000 steps is cut off and not judged (counted under tree:over-step-budget)",
 			"configurations: the shipped ones plus synthetic ones with HomesteadBlock 0/nil, ByzantiumBlock and HF1/HF5 at arbitrary heights; ConstantinopleBlock is never set (no shipped config sets it)",
 		},
 	})
@@ -210,31 +227,49 @@ type kase struct {
 	Value, GasPrice, Time, Difficulty *big.Int
 	GasLimit                          uint64
 	Origin, Caller, Address, Coinbase [20]byte
+	Pool                              []poolAcct // further accounts with code the program may call (call-tree leg)
+}
+
+// poolAcct is an account that exists with code before the case runs.
+type poolAcct struct {
+	Address [20]byte
+	Code    []byte
+}
+
+type poolJSON struct {
+	Address string `json:"address"`
+	Code    string `json:"code"`
+	Asm     string `json:"disassembly,omitempty"`
 }
 
 type kaseJSON struct {
-	Cfg        cfgSpec `json:"cfg"`
-	Number     uint64  `json:"number"`
-	Code       string  `json:"code"`
-	Input      string  `json:"input"`
-	Gas        uint64  `json:"gas"`
-	Value      string  `json:"value"`
-	GasPrice   string  `json:"gasPrice"`
-	Time       string  `json:"time"`
-	Difficulty string  `json:"difficulty"`
-	GasLimit   uint64  `json:"gasLimit"`
-	Origin     string  `json:"origin"`
-	Caller     string  `json:"caller"`
-	Address    string  `json:"address"`
-	Coinbase   string  `json:"coinbase"`
-	Asm        string  `json:"disassembly,omitempty"`
-	Problem    string  `json:"problem,omitempty"`
+	Cfg        cfgSpec    `json:"cfg"`
+	Number     uint64     `json:"number"`
+	Code       string     `json:"code"`
+	Input      string     `json:"input"`
+	Gas        uint64     `json:"gas"`
+	Value      string     `json:"value"`
+	GasPrice   string     `json:"gasPrice"`
+	Time       string     `json:"time"`
+	Difficulty string     `json:"difficulty"`
+	GasLimit   uint64     `json:"gasLimit"`
+	Origin     string     `json:"origin"`
+	Caller     string     `json:"caller"`
+	Address    string     `json:"address"`
+	Coinbase   string     `json:"coinbase"`
+	Pool       []poolJSON `json:"pool,omitempty"`
+	Asm        string     `json:"disassembly,omitempty"`
+	Problem    string     `json:"problem,omitempty"`
 }
 
 func hx(b []byte) string { return hex.EncodeToString(b) }
 
 func (k *kase) toJSON(problem string) kaseJSON {
-	return kaseJSON{Cfg: k.Cfg, Number: k.Number, Code: hx(k.Code), Input: hx(k.Input), Gas: k.Gas,
+	var pool []poolJSON
+	for _, p := range k.Pool {
+		pool = append(pool, poolJSON{Address: hx(p.Address[:]), Code: hx(p.Code), Asm: disasm(p.Code)})
+	}
+	return kaseJSON{Pool: pool, Cfg: k.Cfg, Number: k.Number, Code: hx(k.Code), Input: hx(k.Input), Gas: k.Gas,
 		Value: k.Value.Text(16), GasPrice: k.GasPrice.Text(16), Time: k.Time.Text(16), Difficulty: k.Difficulty.Text(16),
 		GasLimit: k.GasLimit, Origin: hx(k.Origin[:]), Caller: hx(k.Caller[:]), Address: hx(k.Address[:]), Coinbase: hx(k.Coinbase[:]),
 		Asm: disasm(k.Code), Problem: problem}
@@ -267,12 +302,20 @@ func fromJSON(j kaseJSON) (*kase, error) {
 	copy(k.Caller[:], dec(j.Caller))
 	copy(k.Address[:], dec(j.Address))
 	copy(k.Coinbase[:], dec(j.Coinbase))
+	for _, p := range j.Pool {
+		a := poolAcct{Code: dec(p.Code)}
+		copy(a.Address[:], dec(p.Address))
+		k.Pool = append(k.Pool, a)
+	}
 	return k, err
 }
 
 func (k *kase) canon(leg string) []byte {
 	var b bytes.Buffer
 	fmt.Fprintf(&b, "%s|%s|%d|%x|%x|%d|%x|%x|%x|%x|%d", leg, k.Cfg.String(), k.Number, k.Code, k.Input, k.Gas, k.Value, k.GasPrice, k.Time, k.Difficulty, k.GasLimit)
+	for _, p := range k.Pool {
+		fmt.Fprintf(&b, "|%x=%x", p.Address, p.Code)
+	}
 	return b.Bytes()
 }
 
@@ -344,6 +387,7 @@ type realRes struct {
 	GasLeft uint64
 	Err     error
 	Panic   string
+	Nested  bool // a frame below the top of a call tree: Ret and GasLeft are not observable
 }
 
 type tracer struct {
@@ -368,7 +412,7 @@ func (t *tracer) CaptureState(env *vm.EVM, pc uint64, op vm.OpCode, gas, cost ui
 	switch {
 	case i < len(t.want):
 		if t.res.Diff == "" {
-			t.res.Diff = stepDiff(i, pc, byte(op), gas, cost, stack.Data(), memory.Data(), &t.want[i])
+			t.res.Diff = stepDiff(i, pc, byte(op), gas, cost, stack.Data(), len(stack.Data()), memory.Data(), memory.Len(), &t.want[i])
 		}
 	case i == len(t.want):
 		t.res.Extra = &realEvent{PC: pc, Op: byte(op), GasBefore: gas}
@@ -465,7 +509,10 @@ func knownShapeAt(steps []refevm.Step) int {
 	return -1
 }
 
-func stepDiff(i int, pc uint64, op byte, gasBefore, cost uint64, stack []*big.Int, mem []byte, s *refevm.Step) string {
+// stepDiff compares one executed instruction with the reference's step. stack
+// holds the topmost items of a stack of the given depth (all of them, or a
+// window); mem may be nil when only the memory size memLen was kept.
+func stepDiff(i int, pc uint64, op byte, gasBefore, cost uint64, stack []*big.Int, depth int, mem []byte, memLen int, s *refevm.Step) string {
 	if pc != s.PC || op != s.Op {
 		return fmt.Sprintf("step %d: at pc=%d op=%s, specification is at pc=%d op=%s", i, pc, opName(op), s.PC, opName(s.Op))
 	}
@@ -473,22 +520,34 @@ func stepDiff(i int, pc uint64, op byte, gasBefore, cost uint64, stack []*big.In
 	if gasBefore != s.GasBefore {
 		return fmt.Sprintf("%s: gas before = %d, specification %d", where, gasBefore, s.GasBefore)
 	}
+	if s.External {
+		// an instruction outside the computational subset: only where it is
+		// executed and the stack it finds are judged
+		return stackDiff(where, stack, depth, s)
+	}
 	if cost != s.Cost {
 		return fmt.Sprintf("%s: charged %d gas, specification %d", where, cost, s.Cost)
 	}
-	if len(stack) != len(s.Stack) {
-		return fmt.Sprintf("%s: stack depth %d, specification %d", where, len(stack), len(s.Stack))
+	if d := stackDiff(where, stack, depth, s); d != "" {
+		return d
 	}
-	for j := len(s.Stack) - 1; j >= 0; j-- {
-		if stack[j].Cmp(s.Stack[j]) != 0 {
-			return fmt.Sprintf("%s: stack[%d from top] = 0x%x, specification 0x%x", where, len(s.Stack)-1-j, stack[j], s.Stack[j])
-		}
+	if uint64(memLen) != s.MemSize {
+		return fmt.Sprintf("%s: memory size %d, specification %d", where, memLen, s.MemSize)
 	}
-	if uint64(len(mem)) != s.MemSize {
-		return fmt.Sprintf("%s: memory size %d, specification %d", where, len(mem), s.MemSize)
-	}
-	if s.Mem != nil && !bytes.Equal(mem, s.Mem) {
+	if s.Mem != nil && mem != nil && !bytes.Equal(mem, s.Mem) {
 		return fmt.Sprintf("%s: memory content differs: %x, specification %x", where, mem, s.Mem)
+	}
+	return ""
+}
+
+func stackDiff(where string, stack []*big.Int, depth int, s *refevm.Step) string {
+	if depth != s.Depth {
+		return fmt.Sprintf("%s: stack depth %d, specification %d", where, depth, s.Depth)
+	}
+	for j := 0; j < len(stack) && j < len(s.Stack); j++ { // j-th item from the top
+		if a, b := stack[len(stack)-1-j], s.Stack[len(s.Stack)-1-j]; a.Cmp(b) != 0 {
+			return fmt.Sprintf("%s: stack[%d from top] = 0x%x, specification 0x%x", where, j, a, b)
+		}
 	}
 	return ""
 }
@@ -581,6 +640,9 @@ func compare(k *kase, ref *refevm.Result, real *realRes) string {
 		if real.Fault.PC != ref.EndPC || real.Fault.Op != ref.EndOp || real.Fault.GasBefore != ref.EndGas {
 			return fmt.Sprintf("fault at pc=%d op=%s gas=%d, specification pc=%d op=%s gas=%d", real.Fault.PC, opName(real.Fault.Op), real.Fault.GasBefore, ref.EndPC, opName(ref.EndOp), ref.EndGas)
 		}
+	}
+	if real.Nested {
+		return ""
 	}
 	if real.GasLeft != ref.GasLeft {
 		return fmt.Sprintf("leftover gas %d, specification %d (%v)", real.GasLeft, ref.GasLeft, ref.Halt)
@@ -721,6 +783,9 @@ func TestReplay(t *testing.T) {
 	if _, _, problem := judge(k); problem != "" {
 		t.Fatalf("%s\ncase: %s", problem, mustJSON(k.toJSON(problem)))
 	}
+	if _, _, problem, _ := judgeTree(k); problem != "" {
+		t.Fatalf("%s\ncase: %s", problem, mustJSON(k.toJSON(problem)))
+	}
 }
 
 func mustJSON(v interface{}) string {
@@ -744,6 +809,9 @@ func TestCorpus(t *testing.T) {
 		ref, lbls, problem := judge(k)
 		ev.Case(true, k.canon("corpus"), append(lbls, "corpus")...)
 		_ = ref
+		if problem == "" {
+			_, _, problem, _ = judgeTree(k)
+		}
 		if problem != "" {
 			ev.SaveCase("corpus-"+strings.TrimSuffix(e.Name(), ".json"), k.toJSON(problem))
 			t.Errorf("%s: %s", e.Name(), problem)
